@@ -93,18 +93,25 @@ Keeps(s) == IF Has("FilterCleansQueryToo") THEN SafeDest(s) /\ ~(LET c == CleanP
 \* ------------------------------------------------------------------ C13
 \* u = [scheme, userinfo, host, port, path, query, quirk]; host names a host CLASS whose relation to the
 \* client's domain "example.com" is fixed by construction
+\* localhost_sub: a host of the client's own domain whose name starts with "localhost" (localhost.example.com) - legitimate
+\* over https, and over nothing else
 HostClasses == {"exact", "sub", "subsub", "lookalike_prefix", "lookalike_suffix", "foreign", "trailingdot", "upper",
-                "foreign_sub_named_like"}
+                "foreign_sub_named_like", "localhost_sub"}
 \* is the browser-view host the client's domain or a subdomain of it (label boundary)?
-HostLegit(h) == h \in {"exact", "sub", "subsub", "upper"}
+HostLegit(h) == h \in {"exact", "sub", "subsub", "upper", "localhost_sub"}
 \* quirks move the browser-view host away from what a naive parser reads
-Quirks == {"none", "userinfo_domain", "fragment_at", "backslash_at", "userinfo_pw"}
+\* userinfo_encslash: "https://<configured host>%2F@evil.net/..." - the percent-encoded slash keeps the configured name inside
+\* the user-info; the browser goes to evil.net
+Quirks == {"none", "userinfo_domain", "fragment_at", "backslash_at", "userinfo_pw", "userinfo_encslash"}
 \* with these quirks the string shows the client's domain but the browser goes to the foreign host
 BrowserLegit(u) == IF u.quirk = "none" THEN HostLegit(u.host) ELSE FALSE
 \* loose: URL patterns only, and a pattern that matches anything (operators do write such patterns): scheme, query and
 \* parent-directory rules are not the patterns' business and still apply
-ClientCfgs == {"domains", "patterns", "both", "neither", "unknown", "loose"}
-PatternMatches(u) == /\ u.scheme = "https" /\ u.quirk = "none" /\ u.host \in {"exact", "sub", "subsub"}
+\* prefixpat: URL patterns only, one pattern that fixes scheme and host and lets any path follow ("^https://...example\.com/")
+ClientCfgs == {"domains", "patterns", "both", "neither", "unknown", "loose", "prefixpat"}
+PrefixPatternMatches(u) == /\ u.scheme = "https" /\ u.quirk = "none" /\ u.host \in {"exact", "sub", "subsub", "localhost_sub"}
+                           /\ u.port = "none" /\ u.path # "empty"
+PatternMatches(u) == /\ u.scheme = "https" /\ u.quirk = "none" /\ u.host \in {"exact", "sub", "subsub", "localhost_sub"}
                      /\ u.path = "plain" /\ u.query = "none"
 PlainLegit == [scheme |-> "https", host |-> "exact", port |-> "none", path |-> "plain", query |-> "none", quirk |-> "none"]
 \* scheme names are case-insensitive
@@ -122,14 +129,15 @@ DotDotPaths == {"dotdot", "encdotdot", "mixdotdot"}
 G_C13_NoDotDot(u, o) == o.redirected => EffPath(u) \notin DotDotPaths
 G_C13_Host(u, c, o) == (o.redirected /\ c \in {"domains", "both"}) => BrowserLegit(u)
 G_C13_Pattern(r, o) == (o.redirected /\ r.client \in {"patterns", "both"} /\ r.site # "cors") => PatternMatches(r.url)
+G_C13_PrefixPattern(r, o) == (o.redirected /\ r.client = "prefixpat" /\ r.site # "cors") => PrefixPatternMatches(r.url)
 G_C13_KnownClient(c, o) == o.redirected => c \notin {"unknown", "neither"}
 C13Guards(r, o) == {<<"G_C13_Https", G_C13_Https(r.url, o)>>, <<"G_C13_NoQuery", G_C13_NoQuery(r.url, o)>>,
                     <<"G_C13_NoDotDot", G_C13_NoDotDot(r.url, o)>>, <<"G_C13_Host", G_C13_Host(r.url, r.client, o)>>,
-                    <<"G_C13_Pattern", G_C13_Pattern(r, o)>>,
+                    <<"G_C13_Pattern", G_C13_Pattern(r, o)>>, <<"G_C13_PrefixPattern", G_C13_PrefixPattern(r, o)>>,
                     <<"G_C13_KnownClient", G_C13_KnownClient(r.client, o)>>, <<"G_C10_NoPanic", ~o.panic>>,
                     \* a plain legitimate URL of a properly configured client must work (non-vacuity)
                     <<"G_C13_LegitimateWorks", (r.url = PlainLegit /\ (r.client \in {"domains", "both"} \/
-                                                  (r.client = "patterns" /\ r.site # "cors"))) => o.redirected>>}
+                                                  (r.client \in {"patterns", "prefixpat"} /\ r.site # "cors"))) => o.redirected>>}
 \* schemes that merely START like https
 LookalikeSchemes == {"httpsx", "https+app", "HTTPS.app"}
 \* validator_after_loose: the validator is asked about the same URL for the permissive client first - what it then says
